@@ -140,6 +140,27 @@ fn run<R: Round, const B: Word>(op: &str, args: &[&str]) -> Res {
             let den = p_ibig(arg(args, 4)?)?;
             Ok(fl(&R::round_ratio(&int, num, &den)).to_string())
         }
+        "r.fracth" => {
+            // r.fracth <M> d:<B> <int> d:<k> d:<t> <c> <e> <neg>   (C10, directed probe of the coarse f32 test at huge
+            // precisions without shipping the digits): |fract| = B^k div 2 + c * (B^k >> t) + e, sign by <neg>
+            let int = p_ibig(arg(args, 2)?)?;
+            let k = p_usize(arg(args, 3)?)?;
+            let t = p_usize(arg(args, 4)?)?;
+            let c = p_ibig(arg(args, 5)?)?;
+            let e = p_ibig(arg(args, 6)?)?;
+            let neg = match arg(args, 7)? {
+                "true" => true,
+                "false" => false,
+                o => return Err(format!("bad-arg bool {}", o)),
+            };
+            let bk = dashu_int::UBig::from_word(B).pow(k);
+            let mag = IBig::from(&bk >> 1usize) + c * IBig::from(&bk >> t) + e;
+            if mag <= IBig::ZERO || mag >= IBig::from(bk) {
+                return Err("bad-arg fracth range".into());
+            }
+            let fract = if neg { -mag } else { mag };
+            Ok(fl(&R::round_fract::<B>(&int, fract, k)).to_string())
+        }
         // ------------------------------------------------------------ C10: FBig rounding ops
         "f.trunc" | "f.floor" | "f.ceil" | "f.round" | "f.fract" => {
             let fa = p_farg(arg(args, 0)?)?;
@@ -341,6 +362,28 @@ fn rational(op: &str, args: &[&str]) -> Res {
     merge(&["RBig", "Relaxed"], rs)
 }
 
+/// C10: `q.fract_raw` / `q.split_raw` `<num> <den>` — the fraction as the type holds it (no canonicalisation), first
+/// through `RBig`, then through `Relaxed`: `[<trunc>] <num> <den> [<trunc>] <num> <den>`
+fn rational_raw(op: &str, args: &[&str]) -> Res {
+    let num = p_ibig(arg(args, 0)?)?;
+    let den = p_ubig(arg(args, 1)?)?;
+    let r = RBig::from_parts(num.clone(), den.clone());
+    let x = Relaxed::from_parts(num, den);
+    if op == "q.fract_raw" {
+        let (a, b) = (r.fract(), x.fract());
+        Ok(format!("{} {}", fq(a.numerator(), a.denominator()), fq(b.numerator(), b.denominator())))
+    } else {
+        let ((ta, a), (tb, b)) = (r.split_at_point(), x.split_at_point());
+        Ok(format!(
+            "{} {} {} {}",
+            f_ibig(&ta),
+            fq(a.numerator(), a.denominator()),
+            f_ibig(&tb),
+            fq(b.numerator(), b.denominator())
+        ))
+    }
+}
+
 pub fn dispatch(op: &str, args: &[&str]) -> Option<Res> {
     if !(op.starts_with("f.") || op.starts_with("c.") || op.starts_with("r.") || op.starts_with("q.")) {
         return None;
@@ -349,6 +392,7 @@ pub fn dispatch(op: &str, args: &[&str]) -> Option<Res> {
         if op.starts_with("q.") {
             return match op {
                 "q.trunc" | "q.floor" | "q.ceil" | "q.round" | "q.fract" | "q.split" => rational(op, args),
+                "q.fract_raw" | "q.split_raw" => rational_raw(op, args),
                 _ => Err(format!("bad-op {}", op)),
             };
         }
